@@ -326,6 +326,14 @@ class Interp:
             idxv = self.eval(t.slice, env)
             if isinstance(idxv, SWhere):
                 rhs = self.where_rhs(idxv, rhs)
+        if isinstance(cur, SArr) and isinstance(t, ast.Subscript):
+            idxv = self.eval(t.slice, env)
+            basev = self.eval(t.value, env)
+            if isinstance(idxv, SArr) and idxv.dtype == 'int' and isinstance(basev, SArr) and basev.ndim == 1:
+                # a[idx] op= v  ==  a[idx] = a[idx] op v  (idx must be duplicate-free: obligation)
+                newv = self.binop(op, cur, rhs)
+                self.fancy_store(basev, idxv, newv)
+                return
         if isinstance(cur, SArr):
             # in place on the array object
             self.arr_inplace(cur, op, rhs)
@@ -844,6 +852,8 @@ class Interp:
                 return PyType(nm)
             if nm in EXC_NAMES:
                 return ExcClass(nm)
+            if (orig or nm) in BUILTINS and rel is None:
+                return Builtin(orig or nm)
             return Opaque('import:%s' % nm)
         if nm in PYTYPES:
             return PyType(nm)
@@ -2149,4 +2159,4 @@ BUILTINS = {'len', 'range', 'isinstance', 'abs', 'min', 'max', 'float', 'int', '
             'getattr', 'hasattr', 'type', 'repr', 'id', 'callable', 'reversed', 'slice', 'iter',
             'next', 'frozenset', 'complex', 'round', 'divmod', 'issubclass', 'setattr', 'map',
             'old', 'implies', 'iff', 'ite', 'Sum', 'is_none', 'is_inf', 'is_nan', 'same_object',
-            'arr_eq', 'ghost', 'fp_finite', 'is_view', 'is_scalar', 'is_vector', 'approx', 'same_fp', 'same_fp_bool', 'exceeds', 'below', 'pow', 'floor', 'approx_h', 'atan2', 'floor_', 'le', 'log_', 'exp_', 'tanh_'}
+            'arr_eq', 'ghost', 'fp_finite', 'is_view', 'is_scalar', 'is_vector', 'approx', 'same_fp', 'same_fp_bool', 'exceeds', 'below', 'pow', 'floor', 'approx_h', 'atan2', 'floor_', 'le', 'log_', 'exp_', 'tanh_', 'namedtuple'}
